@@ -5,6 +5,7 @@ eight aggregates equal the recomputation from the current links.
 -/
 import CkbVerif.Lemmas.PoolSum
 import CkbVerif.Lemmas.PoolGraph
+import CkbVerif.Lemmas.PoolLimit
 namespace CkbVerif.Pool
 
 def ancL (L : LinkMap) (x : Nat) : List Nat := (calcAnc L x).filter (· ≠ x)
@@ -316,5 +317,896 @@ theorem aggOK_rm {s : Pool} (hL : LinksOK s) (hA : AggOK s) {r : Nat} {er : Entr
     | (rw [← sA]; simp only [mt hrA.mp h2, if_false])
     | (rw [← sD]; simp only [hrD.mpr h1, if_true])
     | (rw [← sD]; simp only [mt hrD.mp h1, if_false])
+
+
+/-! ### remove_entry_and_descendants (repaired) -/
+
+theorem mem_parentsOf_foldrm (D : List Nat) {L : LinkMap} (h : LinkStruct L) (z w : Nat) :
+    w ∈ parentsOf (D.foldl removeEntryLinks L) z ↔ z ∉ D ∧ w ∈ parentsOf L z ∧ w ∉ D := by
+  induction D generalizing L with
+  | nil => simp
+  | cons a l ih =>
+    simp only [List.foldl_cons]
+    rw [ih (h.removeEntryLinks a), mem_parentsOf_rm h]
+    simp only [List.mem_cons, not_or]
+    constructor
+    · rintro ⟨a1, ⟨a2, a3, a4⟩, a5⟩; exact ⟨⟨a2, a1⟩, a3, a4, a5⟩
+    · rintro ⟨⟨a2, a1⟩, a3, a4, a5⟩; exact ⟨a1, ⟨a2, a3, a4⟩, a5⟩
+
+theorem mem_childrenOf_foldrm (D : List Nat) {L : LinkMap} (h : LinkStruct L) (z w : Nat) :
+    w ∈ childrenOf (D.foldl removeEntryLinks L) z ↔ z ∉ D ∧ w ∈ childrenOf L z ∧ w ∉ D := by
+  induction D generalizing L with
+  | nil => simp
+  | cons a l ih =>
+    simp only [List.foldl_cons]
+    rw [ih (h.removeEntryLinks a), mem_childrenOf_rm h]
+    simp only [List.mem_cons, not_or]
+    constructor
+    · rintro ⟨a1, ⟨a2, a3, a4⟩, a5⟩; exact ⟨⟨a2, a1⟩, a3, a4, a5⟩
+    · rintro ⟨⟨a2, a1⟩, a3, a4, a5⟩; exact ⟨a1, ⟨a2, a3, a4⟩, a5⟩
+
+/-- `D` is closed under children -/
+def DownClosed (L : LinkMap) (D : List Nat) : Prop := ∀ d ∈ D, ∀ c ∈ childrenOf L d, c ∈ D
+
+theorem downClosed_rmdIds {L : LinkMap} (h : LinkStruct L) (id : Nat) :
+    DownClosed L (id :: (calcDesc L id).filter (· ≠ id)) := by
+  have hin : ∀ c, Desc L id c → c ∈ id :: (calcDesc L id).filter (· ≠ id) := by
+    intro c hc
+    by_cases e : c = id
+    · rw [e]; exact List.mem_cons_self
+    · exact List.mem_cons_of_mem _ (List.mem_filter.mpr ⟨(mem_calcDesc h id c).mpr hc, by simpa using e⟩)
+  intro d hd c hc
+  rcases List.mem_cons.mp hd with e | e
+  · rw [e] at hc; exact hin c ⟨c, hc, .refl c⟩
+  · have hdd := (mem_calcDesc h id d).mp (List.mem_filter.mp e).1
+    obtain ⟨c0, hc0, hr⟩ := hdd
+    exact hin c ⟨c0, hc0, hr.snoc hc⟩
+
+/-- the parents of a survivor are survivors -/
+theorem parent_not_in {L : LinkMap} (h : LinkStruct L) {D : List Nat} (hdc : DownClosed L D) {z w : Nat}
+    (hz : z ∉ D) (hw : w ∈ parentsOf L z) : w ∉ D :=
+  fun hwD => hz (hdc w hwD z ((h.sym w z).mp hw))
+
+theorem anc_after_rmd {L : LinkMap} (h : LinkStruct L) {D : List Nat} (hdc : DownClosed L D) {x y : Nat} (hx : x ∉ D) :
+    (Anc (D.foldl removeEntryLinks L) x y ↔ Anc L x y) ∧ (Anc L x y → y ∉ D) := by
+  have hreach : ∀ p, p ∉ D → ∀ z, RT (parentsOf L) p z → z ∉ D := by
+    intro p hp z hr
+    induction hr with
+    | refl => exact hp
+    | @step a b c hb _ ih => exact ih (parent_not_in h hdc hp hb)
+  have hsame : ∀ p, p ∉ D → ∀ y, RT (parentsOf (D.foldl removeEntryLinks L)) p y ↔ RT (parentsOf L) p y := by
+    intro p hp y
+    apply rt_same
+    intro z hz w
+    have hzD := hreach p hp z hz
+    rw [mem_parentsOf_foldrm D h]
+    constructor
+    · rintro ⟨_, a, _⟩; exact a
+    · intro a; exact ⟨hzD, a, parent_not_in h hdc hzD a⟩
+  refine ⟨?_, ?_⟩
+  · constructor
+    · rintro ⟨p, hp, hr⟩
+      obtain ⟨_, hp1, hp2⟩ := (mem_parentsOf_foldrm D h x p).mp hp
+      exact ⟨p, hp1, (hsame p hp2 y).mp hr⟩
+    · rintro ⟨p, hp, hr⟩
+      have hpD := parent_not_in h hdc hx hp
+      exact ⟨p, (mem_parentsOf_foldrm D h x p).mpr ⟨hx, hp, hpD⟩, (hsame p hpD y).mpr hr⟩
+  · rintro ⟨p, hp, hr⟩
+    exact hreach p (parent_not_in h hdc hx hp) y hr
+
+theorem desc_after_rmd {L : LinkMap} (h : LinkStruct L) {D : List Nat} (hdc : DownClosed L D) {x y : Nat} (hx : x ∉ D) :
+    Desc (D.foldl removeEntryLinks L) x y ↔ Desc L x y ∧ y ∉ D := by
+  have hg : ∀ z, z ∉ D → ∀ w, w ∈ childrenOf (D.foldl removeEntryLinks L) z ↔ w ∈ childrenOf L z ∧ w ∉ D := by
+    intro z hz w
+    rw [mem_childrenOf_foldrm D h]
+    constructor
+    · rintro ⟨_, a, b⟩; exact ⟨a, b⟩
+    · rintro ⟨a, b⟩; exact ⟨hz, a, b⟩
+  constructor
+  · rintro ⟨c, hc, hr⟩
+    obtain ⟨hc1, hc2⟩ := (hg x hx c).mp hc
+    obtain ⟨a, b⟩ := (rt_remove hdc hg hc2).mp hr
+    exact ⟨⟨c, hc1, a⟩, b⟩
+  · rintro ⟨⟨c, hc, hr⟩, hy⟩
+    have hcD : c ∉ D := fun hd => hy (absorbing_rt hdc hd hr)
+    exact ⟨c, (hg x hx c).mpr ⟨hc, hcD⟩, (rt_remove hdc hg hcD).mpr ⟨hr, hy⟩⟩
+
+theorem modEntries_nil (f : Entry → Entry) (es : List Entry) : modEntries [] f es = es := by
+  unfold modEntries
+  conv => rhs; rw [← List.map_id es]
+  apply List.map_congr_left; intro e _; simp
+
+theorem isBetween_not_key {L : LinkMap} {r : Nat} (h : r ∉ keys L) : isBetween L r = false := by
+  unfold isBetween; rw [calcAnc_nil_of_not_key h]; rfl
+
+/-- removing entries whose link entries are already gone only filters the entry list -/
+theorem foldRemove_isolated (D : List Nat) (c : Pool) (acc : List Entry) (hk : ∀ rid ∈ D, rid ∉ keys c.links) :
+    let r := (D.foldl (fun (acc : Pool × List Entry) rid =>
+      match removeEntry acc.1 rid with
+      | (s', some e) => (s', acc.2 ++ [e])
+      | (s', none) => (s', acc.2)) (c, acc)).1
+    r.entries = c.entries.filter (·.tx.id ∉ D) ∧ r.links = c.links ∧ r.ghostBad = c.ghostBad ∧ r.cfg = c.cfg := by
+  induction D generalizing c acc with
+  | nil => exact ⟨(List.filter_eq_self.mpr (by simp)).symm, rfl, rfl, rfl⟩
+  | cons a l ih =>
+    simp only [List.foldl_cons]
+    have ha : a ∉ keys c.links := hk a List.mem_cons_self
+    have h1 : (removeEntry c a).1.entries = c.entries.filter (·.tx.id ≠ a) ∧ (removeEntry c a).1.links = c.links ∧
+        (removeEntry c a).1.ghostBad = c.ghostBad ∧ (removeEntry c a).1.cfg = c.cfg := by
+      cases hg : getEntry c a with
+      | none =>
+        rw [removeEntry_none c a hg]
+        refine ⟨?_, rfl, rfl, rfl⟩
+        symm
+        apply List.filter_eq_self.mpr
+        intro e he
+        have := getEntry_none hg e.tx (List.mem_map.mpr ⟨e, he, rfl⟩)
+        simpa using this
+      | some e =>
+        have hb := isBetween_not_key ha
+        refine ⟨?_, ?_, ?_, removeEntry_cfg c a⟩
+        · rw [removeEntry_entries_plain c a e hg hb, calcAnc_nil_of_not_key ha, calcDesc_nil_of_not_key ha,
+            modEntries_nil, modEntries_nil]
+        · rw [removeEntry_links c a e hg]; exact removeEntryLinks_not_key ha
+        · rw [removeEntry_ghostBad c a e hg, hb]; simp
+    obtain ⟨e1, e2, e3, e4⟩ := h1
+    rcases hre : removeEntry c a with ⟨s', oe⟩
+    rw [hre] at e1 e2 e3 e4
+    have hk' : ∀ rid ∈ l, rid ∉ keys s'.links := by
+      intro rid hr; rw [e2]; exact hk rid (List.mem_cons_of_mem _ hr)
+    have key : ∀ acc', let r := (l.foldl (fun (acc : Pool × List Entry) rid =>
+        match removeEntry acc.1 rid with
+        | (s', some e) => (s', acc.2 ++ [e])
+        | (s', none) => (s', acc.2)) (s', acc')).1
+        r.entries = c.entries.filter (·.tx.id ∉ a :: l) ∧ r.links = c.links ∧ r.ghostBad = c.ghostBad ∧ r.cfg = c.cfg := by
+      intro acc'
+      obtain ⟨f1, f2, f3, f4⟩ := ih s' acc' hk'
+      refine ⟨?_, f2.trans e2, f3.trans e3, f4.trans e4⟩
+      rw [f1, e1, List.filter_filter]
+      apply List.filter_congr
+      intro x _
+      by_cases h1 : x.tx.id ∈ l <;> by_cases h2 : x.tx.id = a <;> simp [h1, h2]
+    cases oe with
+    | none => exact key acc
+    | some e => exact key (acc ++ [e])
+
+
+/-- the state during the repaired pre-pass: `P` = removed ids already processed -/
+def PreQ (s : Pool) (Dall P : List Nat) (cur : Pool) : Prop :=
+  cur.links = s.links ∧ txs cur = txs s ∧ cur.ghostBad = s.ghostBad ∧ cur.cfg = s.cfg ∧
+  ∀ e0 ∈ cur.entries, e0.tx.id ∉ Dall →
+    e0.anc = e0.tx.w.add (sumW s (ancL s.links e0.tx.id)) ∧
+    e0.desc = e0.tx.w.add (sumW s ((descL s.links e0.tx.id).filter (· ∉ P)))
+
+theorem preSub_step {s : Pool} (hst : LinkStruct s.links) (Dall : List Nat) (D2 : List Nat) :
+    ∀ (P : List Nat) (cur : Pool), D2.Nodup → (∀ rid ∈ D2, rid ∉ P ∧ rid ∈ Dall ∧ (getEntry s rid).isSome) →
+      PreQ s Dall P cur → PreQ s Dall (P ++ D2) (preSubDescendants cur D2) := by
+  induction D2 with
+  | nil => intro P cur _ _ h; simpa [preSubDescendants] using h
+  | cons rid D2 ih =>
+    intro P cur hn hD hQ
+    obtain ⟨hl, ht, hgb, hcfg, hent⟩ := hQ
+    obtain ⟨hridP, hridD, hridE⟩ := hD rid List.mem_cons_self
+    have hn' := (List.nodup_cons.mp hn)
+    unfold preSubDescendants
+    simp only [List.foldl_cons]
+    -- the entry of rid exists in cur with the same transaction as in s
+    have hfind : (getEntry cur rid).map (·.tx) = (getEntry s rid).map (·.tx) := by
+      rw [getEntry_tx, getEntry_tx, ht]
+    cases hgc : getEntry cur rid with
+    | none =>
+      rw [hgc] at hfind
+      cases hgs : getEntry s rid with
+      | none => rw [hgs] at hridE; simp at hridE
+      | some x => rw [hgs] at hfind; simp at hfind
+    | some er =>
+      simp only
+      have hwr : wOf s rid = er.tx.w := by
+        have : wOf cur rid = wOf s rid := wOf_congr rid hfind
+        rw [← this]; unfold wOf; rw [hgc]
+      have hstep : PreQ s Dall (P ++ [rid])
+          { cur with entries := modEntries (calcAnc cur.links rid) (subDesc er.tx.w) cur.entries } := by
+        refine ⟨hl, ?_, hgb, hcfg, ?_⟩
+        · rw [← ht]; simp only [txs]; exact modEntries_txs _ _ (by simp) _
+        · intro e0' he0' hx'
+          obtain ⟨e0, he0, rfl⟩ := mem_modEntries_iff.mp he0'
+          have htx : (if e0.tx.id ∈ calcAnc cur.links rid then subDesc er.tx.w e0 else e0).tx = e0.tx := by
+            split <;> rfl
+          rw [htx] at hx' ⊢
+          obtain ⟨ha, hd⟩ := hent e0 he0 hx'
+          have hxr : rid ≠ e0.tx.id := fun e => hx' (e ▸ hridD)
+          have hcond : rid ∈ (descL s.links e0.tx.id).filter (· ∉ P) ↔ e0.tx.id ∈ calcAnc cur.links rid := by
+            rw [hl, List.mem_filter, mem_descL hst, mem_calcAnc hst, desc_iff_anc hst]
+            constructor
+            · rintro ⟨⟨a, _⟩, _⟩; exact a
+            · intro a; exact ⟨⟨a, hxr⟩, by simpa using hridP⟩
+          have hm : ∀ y, y ∈ (descL s.links e0.tx.id).filter (· ∉ P ++ [rid]) ↔
+              y ∈ (descL s.links e0.tx.id).filter (· ∉ P) ∧ y ≠ rid := by
+            intro y
+            simp only [List.mem_filter, List.mem_append, List.mem_singleton, not_or, decide_eq_true_eq]
+            constructor
+            · rintro ⟨a, b, c⟩; exact ⟨⟨a, b⟩, c⟩
+            · rintro ⟨⟨a, b⟩, c⟩; exact ⟨a, b, c⟩
+          have sD := sum_minus_one s s e0.tx.w er.tx.w
+            (List.Nodup.sublist List.filter_sublist (nodup_descL s.links e0.tx.id))
+            (List.Nodup.sublist List.filter_sublist (nodup_descL s.links e0.tx.id))
+            (fun _ _ => rfl) hwr hm
+          rw [← hd] at sD
+          by_cases hc : e0.tx.id ∈ calcAnc cur.links rid
+          · simp only [hc, if_true, subDesc]
+            refine ⟨ha, ?_⟩
+            rw [← sD]; simp only [hcond.mpr hc, if_true]
+          · simp only [hc, if_false]
+            refine ⟨ha, ?_⟩
+            rw [← sD]; simp only [mt hcond.mp hc, if_false]
+      have := ih (P ++ [rid]) _ hn'.2 (fun r hr => by
+        obtain ⟨a, b, c⟩ := hD r (List.mem_cons_of_mem _ hr)
+        refine ⟨?_, b, c⟩
+        intro hm
+        rcases List.mem_append.mp hm with h1 | h1
+        · exact a h1
+        · have : r = rid := by simpa using h1
+          exact hn'.1 (this ▸ hr)) hstep
+      rw [List.append_assoc] at this
+      exact this
+
+theorem aggOK_rmd {s : Pool} (hL : LinksOK s) (hA : AggOK s) (hfix : s.cfg.fixF2 = true) (id : Nat) :
+    AggOK (removeWithDesc s id).1 ∧ (removeWithDesc s id).1.ghostBad = s.ghostBad ∧ (removeWithDesc s id).1.cfg = s.cfg := by
+  have hst := hL.struct
+  have hkeys : ∀ x, x ∈ keys s.links ↔ ∃ t ∈ txs s, t.id = x := by
+    intro x; rw [hL.keysEq x]; simp
+  -- every removed id that is a key has an entry
+  have hentry : ∀ x, x ∈ keys s.links → (getEntry s x).isSome := by
+    intro x hx
+    obtain ⟨t, ht, hid⟩ := (hkeys x).mp hx
+    cases hg : getEntry s x with
+    | some _ => rfl
+    | none => exact absurd hid (getEntry_none hg t ht)
+  unfold removeWithDesc
+  simp only [hfix, if_true]
+  generalize hD : (id :: (calcDesc s.links id).filter (· ≠ id)) = D
+  have hDn : D.Nodup := by
+    rw [← hD]
+    refine List.nodup_cons.mpr ⟨?_, List.Nodup.sublist List.filter_sublist (nodup_calcDesc _ _)⟩
+    intro hm; simpa using (List.mem_filter.mp hm).2
+  have hdc : DownClosed s.links D := by rw [← hD]; exact downClosed_rmdIds hst id
+  by_cases hid : id ∈ keys s.links
+  · -- the normal case: every member of D is pooled
+    have hDk : ∀ rid ∈ D, rid ∈ keys s.links := by
+      intro rid hr
+      rw [← hD] at hr
+      rcases List.mem_cons.mp hr with e | e
+      · rw [e]; exact hid
+      · obtain ⟨c, hc, hrt⟩ := (mem_calcDesc hst id rid).mp (List.mem_filter.mp e).1
+        rcases rt_succ_or_eq hrt with e1 | ⟨a, ha⟩
+        · rw [e1]; exact (hst.parent_key ((hst.sym id c).mpr hc)).2
+        · exact (hst.parent_key ((hst.sym a rid).mpr ha)).2
+    have hQ0 : PreQ s D [] s := by
+      refine ⟨rfl, rfl, rfl, rfl, fun e0 he0 _ => ?_⟩
+      obtain ⟨a, b⟩ := hA e0 he0
+      refine ⟨a, ?_⟩
+      rw [b]; congr 2
+      exact (List.filter_eq_self.mpr (by simp)).symm
+    have hQ := preSub_step hst D D [] s hDn (fun rid hr => ⟨by simp, hr, hentry rid (hDk rid hr)⟩) hQ0
+    rw [List.nil_append] at hQ
+    obtain ⟨hl, ht, hgb, hcfg, hent⟩ := hQ
+    have hiso := foldRemove_isolated D
+      { preSubDescendants s D with links := D.foldl removeEntryLinks (preSubDescendants s D).links } []
+      (by
+        intro rid hr
+        show rid ∉ keys (D.foldl removeEntryLinks (preSubDescendants s D).links)
+        rw [hl, (foldUnlink D s.links hst).2]
+        intro hm
+        have := (List.mem_filter.mp hm).2
+        simp only [decide_eq_true_eq] at this
+        exact this hr)
+    simp only at hiso
+    obtain ⟨f1, f2, f3, f4⟩ := hiso
+    have key : ∀ F : Pool, F.entries = (preSubDescendants s D).entries.filter (·.tx.id ∉ D) →
+        F.links = D.foldl removeEntryLinks s.links → AggOK F := by
+      intro F hFe hFl e he
+      rw [hFe] at he
+      obtain ⟨he0, hne⟩ := List.mem_filter.mp he
+      have hxD : e.tx.id ∉ D := by simpa using hne
+      obtain ⟨ha, hd⟩ := hent e he0 hxD
+      have hst' := (foldUnlink D s.links hst).1
+      have hFt : txs F = (txs s).filter (·.id ∉ D) := by
+        rw [← ht]
+        simp only [txs, hFe, List.filter_map]
+        rfl
+      have hw : ∀ y, y ∉ D → wOf F y = wOf s y := by
+        intro y hy
+        apply wOf_of_txs
+        rw [hFt]; exact find?_filter_notin _ _ _ hy
+      rw [hFl]
+      constructor
+      · rw [ha]; congr 1
+        have hmem : ∀ y, y ∈ ancL s.links e.tx.id ↔ y ∈ ancL (D.foldl removeEntryLinks s.links) e.tx.id := by
+          intro y
+          rw [mem_ancL hst, mem_ancL hst', (anc_after_rmd hst hdc hxD).1]
+        rw [sumW_ext s (nodup_ancL _ _) (nodup_ancL _ _) hmem]
+        apply (sumW_congr _ _).symm
+        intro y hy
+        have hy' := ((mem_ancL hst' _ y).mp hy).1
+        exact hw y ((anc_after_rmd hst hdc hxD).2 (((anc_after_rmd hst hdc hxD).1).mp hy'))
+      · rw [hd]; congr 1
+        have hmem : ∀ y, y ∈ (descL s.links e.tx.id).filter (· ∉ D) ↔ y ∈ descL (D.foldl removeEntryLinks s.links) e.tx.id := by
+          intro y
+          rw [List.mem_filter, mem_descL hst, mem_descL hst', desc_after_rmd hst hdc hxD]
+          simp only [decide_eq_true_eq]
+          constructor
+          · rintro ⟨⟨a, b⟩, c⟩; exact ⟨⟨a, c⟩, b⟩
+          · rintro ⟨⟨a, c⟩, b⟩; exact ⟨⟨a, b⟩, c⟩
+        rw [sumW_ext s (List.Nodup.sublist List.filter_sublist (nodup_descL _ _)) (nodup_descL _ _) hmem]
+        apply (sumW_congr _ _).symm
+        intro y hy
+        have hy' := ((mem_descL hst' _ y).mp hy).1
+        exact hw y ((desc_after_rmd hst hdc hxD).mp hy').2
+    have f2' := f2.trans (show D.foldl removeEntryLinks (preSubDescendants s D).links = D.foldl removeEntryLinks s.links by rw [hl])
+    exact ⟨key _ f1 f2', f3.trans hgb, f4.trans hcfg⟩
+  · -- id is not pooled: nothing happens
+    have hDe : D = [id] := by rw [← hD, calcDesc_nil_of_not_key hid]; rfl
+    have hnone : getEntry s id = none := by
+      cases hg : getEntry s id with
+      | none => rfl
+      | some e =>
+        obtain ⟨he, heid⟩ := getEntry_some hg
+        exact absurd ((hkeys id).mpr ⟨e.tx, List.mem_map.mpr ⟨e, he, rfl⟩, heid⟩) hid
+    subst hDe
+    have h1 : preSubDescendants s [id] = s := by
+      unfold preSubDescendants; simp only [List.foldl_cons, List.foldl_nil, hnone]
+    rw [h1]
+    have h2 : ([id].foldl removeEntryLinks s.links) = s.links := by
+      simp only [List.foldl_cons, List.foldl_nil]; exact removeEntryLinks_not_key hid
+    rw [h2]
+    simp only [List.foldl_cons, List.foldl_nil]
+    have hr : removeEntry s id = (s, none) := by unfold removeEntry; rw [hnone]
+    show AggOK (match removeEntry s id with
+        | (s', some e) => (s', [] ++ [e])
+        | (s', none) => (s', ([] : List Entry))).1 ∧
+      (match removeEntry s id with
+        | (s', some e) => (s', [] ++ [e])
+        | (s', none) => (s', ([] : List Entry))).1.ghostBad = s.ghostBad ∧
+      (match removeEntry s id with
+        | (s', some e) => (s', [] ++ [e])
+        | (s', none) => (s', ([] : List Entry))).1.cfg = s.cfg
+    rw [hr]
+    exact ⟨hA, rfl, rfl⟩
+
+
+/-! ### a new sink below existing parents (clean `add_entry`) -/
+
+theorem mem_parentsOf_add (L : LinkMap) (E : Nat) (P : List Nat) (z w : Nat) :
+    w ∈ parentsOf (addNodeLinks L E P) z ↔ (z = E ∧ w ∈ P) ∨ (z ≠ E ∧ w ∈ parentsOf L z) := by
+  rw [parentsOf_addNodeLinks]
+  by_cases hz : z = E <;> simp [hz]
+
+theorem mem_childrenOf_add {L : LinkMap} {E : Nat} {P : List Nat} (hP : ∀ p ∈ P, p ∈ keys L) (z w : Nat) :
+    w ∈ childrenOf (addNodeLinks L E P) z ↔ z ≠ E ∧ (w ∈ childrenOf L z ∨ (z ∈ P ∧ w = E)) := by
+  rw [childrenOf_addNodeLinks]
+  by_cases hz : z = E
+  · simp [hz]
+  · simp only [hz, if_false, ne_eq, not_false_eq_true, true_and]
+    by_cases hp : z ∈ P
+    · simp only [hp, if_true, true_and]
+      have hk := (mem_keys_iff L z).mp (hP z hp)
+      rw [childrenOf_eq]
+      cases hl : linkOf L z with
+      | none => rw [hl] at hk; simp at hk
+      | some l => simp [mem_insertNew]
+    · simp [hp]
+
+section AddSink
+variable {L : LinkMap} (h : LinkStruct L) {E : Nat} {P : List Nat} (hE : E ∉ keys L) (hP : ∀ p ∈ P, p ∈ keys L)
+include h hE hP
+
+theorem parent_ne_new {z w : Nat} (hw : w ∈ parentsOf L z) : w ≠ E ∧ z ≠ E :=
+  ⟨fun e => hE (e ▸ (h.parent_key hw).1), fun e => hE (e ▸ (h.parent_key hw).2)⟩
+
+theorem child_ne_new {z w : Nat} (hw : w ∈ childrenOf L z) : w ≠ E ∧ z ≠ E := by
+  have := parent_ne_new h hE hP ((h.sym z w).mpr hw)
+  exact ⟨this.2, this.1⟩
+
+/-- reachability along parent links from an old node is unchanged -/
+theorem rt_parents_add_old {p y : Nat} (hp : p ≠ E) :
+    RT (parentsOf (addNodeLinks L E P)) p y ↔ RT (parentsOf L) p y := by
+  apply rt_same
+  intro z hz w
+  have hzE : z ≠ E := by
+    rcases rt_succ_or_eq hz with e | ⟨a, ha⟩
+    · rw [e]; exact hp
+    · exact (parent_ne_new h hE hP ha).1
+  rw [mem_parentsOf_add]
+  constructor
+  · rintro (⟨a, _⟩ | ⟨_, a⟩)
+    · exact absurd a hzE
+    · exact a
+  · intro a; exact Or.inr ⟨hzE, a⟩
+
+theorem anc_add_old {x y : Nat} (hx : x ≠ E) : Anc (addNodeLinks L E P) x y ↔ Anc L x y := by
+  constructor
+  · rintro ⟨p, hp, hr⟩
+    rcases (mem_parentsOf_add L E P x p).mp hp with ⟨a, _⟩ | ⟨_, a⟩
+    · exact absurd a hx
+    · exact ⟨p, a, (rt_parents_add_old h hE hP (parent_ne_new h hE hP a).1).mp hr⟩
+  · rintro ⟨p, hp, hr⟩
+    exact ⟨p, (mem_parentsOf_add L E P x p).mpr (Or.inr ⟨hx, hp⟩),
+      (rt_parents_add_old h hE hP (parent_ne_new h hE hP hp).1).mpr hr⟩
+
+theorem anc_add_new (y : Nat) : Anc (addNodeLinks L E P) E y ↔ ∃ p ∈ P, RT (parentsOf L) p y := by
+  constructor
+  · rintro ⟨p, hp, hr⟩
+    rcases (mem_parentsOf_add L E P E p).mp hp with ⟨_, a⟩ | ⟨a, _⟩
+    · exact ⟨p, a, (rt_parents_add_old h hE hP (fun e => hE (e ▸ hP p a))).mp hr⟩
+    · exact absurd rfl a
+  · rintro ⟨p, hp, hr⟩
+    exact ⟨p, (mem_parentsOf_add L E P E p).mpr (Or.inl ⟨rfl, hp⟩),
+      (rt_parents_add_old h hE hP (fun e => hE (e ▸ hP p hp))).mpr hr⟩
+
+theorem new_not_reached {p y : Nat} (hp : p ∈ P) (hr : RT (parentsOf L) p y) : y ≠ E := by
+  rcases rt_succ_or_eq hr with e | ⟨a, ha⟩
+  · rw [e]; exact fun e' => hE (e' ▸ hP p hp)
+  · exact (parent_ne_new h hE hP ha).1
+
+theorem desc_add_old {x y : Nat} (hx : x ≠ E) :
+    Desc (addNodeLinks L E P) x y ↔ Desc L x y ∨ (y = E ∧ ∃ p ∈ P, RT (parentsOf L) p x) := by
+  have hEc : ∀ z w, w ∈ childrenOf L z → w ≠ E ∧ z ≠ E := fun z w hw => child_ne_new h hE hP hw
+  have hg := mem_childrenOf_add (E := E) hP
+  constructor
+  · rintro ⟨c, hc, hr⟩
+    obtain ⟨_, hc'⟩ := (hg x c).mp hc
+    rcases hc' with hc1 | ⟨hxP, hcE⟩
+    · rcases (rt_add_sink hEc hg (hEc x c hc1).1).mp hr with r | ⟨e, p, hp, r⟩
+      · exact Or.inl ⟨c, hc1, r⟩
+      · refine Or.inr ⟨e, p, hp, ?_⟩
+        -- x -> c ->* p along children, so p ->* x along parents
+        have : Desc L x p := ⟨c, hc1, r⟩
+        exact (rt_iff_eq_or_anc L p x).mpr (Or.inr ((desc_iff_anc h x p).mp this))
+    · rw [hcE] at hr
+      have hyE : y = E := by
+        cases hr with
+        | refl => rfl
+        | step hb _ => exact absurd rfl ((hg _ _).mp hb).1
+      exact Or.inr ⟨hyE, x, hxP, .refl x⟩
+  · rintro (⟨c, hc, hr⟩ | ⟨e, p, hp, hr⟩)
+    · exact ⟨c, (hg x c).mpr ⟨hx, Or.inl hc⟩, (rt_add_sink hEc hg (hEc x c hc).1).mpr (Or.inl hr)⟩
+    · rw [e]
+      rcases (rt_iff_eq_or_anc L p x).mp hr with e1 | ha
+      · rw [e1]; exact ⟨E, (hg p E).mpr ⟨fun e' => hE (e' ▸ hP p hp), Or.inr ⟨hp, rfl⟩⟩, .refl E⟩
+      · obtain ⟨c, hc, hr'⟩ := (desc_iff_anc h x p).mpr ha
+        exact ⟨c, (hg x c).mpr ⟨hx, Or.inl hc⟩,
+          (rt_add_sink hEc hg (hEc x c hc).1).mpr (Or.inr ⟨rfl, p, hp, hr'⟩)⟩
+
+end AddSink
+
+
+theorem find?_append_new (l : List Tx) (t : Tx) (h : ∀ x ∈ l, x.id ≠ t.id) :
+    (l ++ [t]).find? (·.id = t.id) = some t := by
+  rw [List.find?_append]
+  have : l.find? (·.id = t.id) = none := by
+    apply List.find?_eq_none.mpr
+    intro x hx; simpa using h x hx
+  rw [this]; simp
+
+theorem aggOK_push {s1 F : Pool} (hL : LinksOK s1) (hA : AggOK s1) {t : Tx} {P : List Nat} {e' : Entry}
+    (hE : t.id ∉ keys s1.links) (hP : ∀ p ∈ P, p ∈ keys s1.links) (hn : P.Nodup)
+    (hetx : e'.tx = t) (hedesc : e'.desc = t.w)
+    (heanc : e'.anc = t.w.add (sumW s1 (calcRelation (parentsOf s1.links) (keys s1.links) P)))
+    (hFl : F.links = addNodeLinks s1.links t.id P)
+    (hFe : F.entries = modEntries (calcAnc F.links t.id) (addDesc t.w) (s1.entries ++ [e'])) : AggOK F := by
+  have hst := hL.struct
+  have hst' := hst.addNode hE hP hn
+  have hfresh : ∀ x ∈ txs s1, x.id ≠ t.id := by
+    intro x hx e
+    exact hE ((hL.keysEq t.id).mpr ⟨⟨x, hx, e⟩, by simp⟩)
+  have hFt : txs F = txs s1 ++ [t] := by
+    simp only [txs, hFe]
+    rw [modEntries_txs _ _ (by simp)]
+    simp [hetx]
+  have hwold : ∀ y, y ≠ t.id → wOf F y = wOf s1 y := by
+    intro y hy
+    apply wOf_of_txs
+    rw [hFt]; exact find?_append_fresh _ _ _ hy
+  have hwnew : wOf F t.id = t.w := by
+    have h1 : (getEntry F t.id).map (·.tx) = some t := by
+      rw [getEntry_tx, hFt]; exact find?_append_new _ _ hfresh
+    unfold wOf
+    cases hg : getEntry F t.id with
+    | none => rw [hg] at h1; simp at h1
+    | some x => rw [hg] at h1; simp at h1; show Tx.w x.tx = t.w; rw [h1]
+  have hkeyne : ∀ {y}, y ∈ keys s1.links → y ≠ t.id := fun hy e => hE (e ▸ hy)
+  have hcond : ∀ x, x ∈ calcAnc (addNodeLinks s1.links t.id P) t.id ↔ ∃ p ∈ P, RT (parentsOf s1.links) p x := by
+    intro x; rw [mem_calcAnc hst', anc_add_new hst hE hP]
+  rw [hFl] at hFe
+  intro ef hef
+  rw [hFe] at hef
+  rw [hFl]
+  obtain ⟨e, he, rfl⟩ := mem_modEntries_iff.mp hef
+  rcases List.mem_append.mp he with hold | hnew
+  · -- an entry that was there before
+    have hx : e.tx.id ≠ t.id := hfresh e.tx (List.mem_map.mpr ⟨e, hold, rfl⟩)
+    obtain ⟨ha, hd⟩ := hA e hold
+    have htx : (if e.tx.id ∈ calcAnc (addNodeLinks s1.links t.id P) t.id then addDesc t.w e else e).tx = e.tx := by
+      split <;> rfl
+    have hanc : (if e.tx.id ∈ calcAnc (addNodeLinks s1.links t.id P) t.id then addDesc t.w e else e).anc = e.anc := by
+      split <;> rfl
+    rw [htx, hanc]
+    constructor
+    · rw [ha]; congr 1
+      have hmem : ∀ y, y ∈ ancL s1.links e.tx.id ↔ y ∈ ancL (addNodeLinks s1.links t.id P) e.tx.id := by
+        intro y; rw [mem_ancL hst, mem_ancL hst', anc_add_old hst hE hP hx]
+      rw [sumW_ext s1 (nodup_ancL _ _) (nodup_ancL _ _) hmem]
+      apply (sumW_congr _ _).symm
+      intro y hy
+      obtain ⟨⟨p, hp, hr⟩, _⟩ := (mem_ancL hst _ y).mp ((hmem y).mpr hy)
+      apply hwold
+      rcases rt_succ_or_eq hr with e1 | ⟨a, ha'⟩
+      · rw [e1]; exact hkeyne (hst.parent_key hp).1
+      · exact hkeyne (hst.parent_key ha').1
+    · have hmem : ∀ y, y ∈ descL (addNodeLinks s1.links t.id P) e.tx.id ↔
+          y ∈ descL s1.links e.tx.id ∨ (y = t.id ∧ e.tx.id ∈ calcAnc (addNodeLinks s1.links t.id P) t.id) := by
+        intro y
+        rw [mem_descL hst', mem_descL hst, desc_add_old hst hE hP hx, hcond]
+        constructor
+        · rintro ⟨a | ⟨a, b⟩, c⟩
+          · exact Or.inl ⟨a, c⟩
+          · exact Or.inr ⟨a, b⟩
+        · rintro (⟨a, c⟩ | ⟨a, b⟩)
+          · exact ⟨Or.inl a, c⟩
+          · exact ⟨Or.inr ⟨a, b⟩, by rw [a]; exact fun e' => hx e'.symm⟩
+      have hEnotin : t.id ∉ descL s1.links e.tx.id := by
+        intro hm
+        obtain ⟨⟨c, hc, hr⟩, _⟩ := (mem_descL hst _ _).mp hm
+        rcases rt_succ_or_eq hr with e1 | ⟨a, ha'⟩
+        · exact hkeyne (hst.parent_key ((hst.sym e.tx.id c).mpr hc)).2 e1.symm
+        · exact hkeyne (hst.parent_key ((hst.sym a t.id).mpr ha')).2 rfl
+      have hwd : ∀ y ∈ descL s1.links e.tx.id, wOf F y = wOf s1 y := by
+        intro y hy
+        apply hwold
+        intro e1; exact hEnotin (e1 ▸ hy)
+      by_cases hc : e.tx.id ∈ calcAnc (addNodeLinks s1.links t.id P) t.id
+      · simp only [hc, if_true, addDesc]
+        have : sumW F (descL (addNodeLinks s1.links t.id P) e.tx.id) = (sumW F (descL s1.links e.tx.id)).add (wOf F t.id) := by
+          apply sumW_insert F (nodup_descL _ _) (nodup_descL _ _) hEnotin
+          intro y; rw [hmem y]; simp [hc]
+        rw [this, hwnew, sumW_congr _ hwd, hd, W.add_assoc]
+      · simp only [hc, if_false]
+        rw [hd]; congr 1
+        rw [← sumW_congr _ hwd]
+        apply sumW_ext F (nodup_descL _ _) (nodup_descL _ _)
+        intro y; rw [hmem y]; simp [hc]
+  · -- the new entry
+    have hee : e = e' := by simpa using hnew
+    subst hee
+    have hnotin : e.tx.id ∉ calcAnc (addNodeLinks s1.links t.id P) t.id := by
+      rw [hetx, hcond]
+      rintro ⟨p, hp, hr⟩
+      exact new_not_reached hst hE hP hp hr rfl
+    simp only [hnotin, if_false]
+    rw [hetx]
+    constructor
+    · rw [heanc]; congr 1
+      have hmem : ∀ y, y ∈ calcRelation (parentsOf s1.links) (keys s1.links) P ↔ y ∈ ancL (addNodeLinks s1.links t.id P) t.id := by
+        intro y
+        rw [mem_calcRelation _ _ _ (fun _ _ hb => (hst.parent_key hb).1), mem_ancL hst', anc_add_new hst hE hP]
+        constructor
+        · rintro ⟨p, hp, hr⟩; exact ⟨⟨p, hp, hr⟩, new_not_reached hst hE hP hp hr⟩
+        · rintro ⟨a, _⟩; exact a
+      rw [sumW_ext s1 (nodup_calcRelation _ _ _) (nodup_ancL _ _) hmem]
+      apply (sumW_congr _ _).symm
+      intro y hy
+      exact hwold y ((mem_ancL hst' _ y).mp hy).2
+    · rw [hedesc]
+      have : descL (addNodeLinks s1.links t.id P) t.id = [] := by
+        unfold descL calcDesc
+        have : childrenOf (addNodeLinks s1.links t.id P) t.id = [] := by
+          rw [childrenOf_addNodeLinks]; simp
+        rw [this, calcRelation_nil]; rfl
+      rw [this, sumW_nil, W.add_zero]
+
+
+/-! ### the invariant and its closure under the core operations -/
+
+/-- links clause, and — for the repaired `remove_entry_and_descendants`, as long as neither bad pattern
+    occurred — the aggregates clause -/
+def AggInv (s : Pool) : Prop := LinksOK s ∧ (s.cfg.fixF2 = true → s.ghostBad = false → AggOK s)
+
+theorem removeWithDesc_cfg (s : Pool) (id : Nat) : (removeWithDesc s id).1.cfg = s.cfg :=
+  removeWithDesc_of (P := fun x => x.cfg = s.cfg)
+    (fun x rid hx => (removeEntry_cfg x rid).trans hx)
+    (fun x ids hx => (preSub_ghostBad x ids).2.1.trans hx)
+    (fun _ _ hx => hx) s id rfl
+
+theorem aggInv_rm (s : Pool) (id : Nat) (h : AggInv s) : AggInv (removeEntry s id).1 := by
+  refine ⟨linksRel_rm h.1 id, ?_⟩
+  cases hg : getEntry s id with
+  | none => rw [removeEntry_none s id hg]; exact h.2
+  | some e =>
+    intro hfix hgb
+    rw [removeEntry_cfg] at hfix
+    rw [removeEntry_ghostBad s id e hg] at hgb
+    simp only [Bool.or_eq_false_iff] at hgb
+    exact aggOK_rm h.1 (h.2 hfix hgb.1) hg hgb.2
+
+theorem removeWithDesc_ghostBad {s : Pool} (hL : LinksOK s) (id : Nat) :
+    (removeWithDesc s id).1.ghostBad = s.ghostBad := by
+  unfold removeWithDesc
+  simp only
+  generalize (id :: (calcDesc s.links id).filter (· ≠ id)) = D
+  have h0 : (if s.cfg.fixF2 then preSubDescendants s D else s).ghostBad = s.ghostBad ∧
+      (if s.cfg.fixF2 then preSubDescendants s D else s).links = s.links := by
+    split
+    · exact ⟨(preSub_ghostBad s D).1, (preSub_links s D).1⟩
+    · exact ⟨rfl, rfl⟩
+  generalize (if s.cfg.fixF2 then preSubDescendants s D else s) = s0 at h0
+  obtain ⟨hg, hl⟩ := h0
+  have hiso := foldRemove_isolated D { s0 with links := D.foldl removeEntryLinks s0.links } []
+    (by
+      intro rid hr
+      show rid ∉ keys (D.foldl removeEntryLinks s0.links)
+      rw [hl, (foldUnlink D s.links hL.struct).2]
+      intro hm
+      have := (List.mem_filter.mp hm).2
+      simp only [decide_eq_true_eq] at this
+      exact this hr)
+  exact hiso.2.2.1.trans hg
+
+theorem aggInv_rmd (s : Pool) (id : Nat) (h : AggInv s) : AggInv (removeWithDesc s id).1 := by
+  refine ⟨linksOK_rmd s id h.1, ?_⟩
+  intro hfix hgb
+  rw [removeWithDesc_cfg] at hfix
+  rw [removeWithDesc_ghostBad h.1] at hgb
+  exact (aggOK_rmd h.1 (h.2 hfix hgb) hfix id).1
+
+theorem foldAnc_sum (s : Pool) (l : List Nat) (e : Entry) :
+    (l.foldl (fun e a => match getEntry s a with
+      | some x => addAnc x.tx.w e
+      | none => e) e).anc = e.anc.add (sumW s l) ∧
+    (l.foldl (fun e a => match getEntry s a with
+      | some x => addAnc x.tx.w e
+      | none => e) e).desc = e.desc := by
+  induction l generalizing e with
+  | nil => exact ⟨(W.add_zero _).symm, rfl⟩
+  | cons a l ih =>
+    simp only [List.foldl_cons]
+    obtain ⟨h1, h2⟩ := ih (match getEntry s a with
+      | some x => addAnc x.tx.w e
+      | none => e)
+    rw [h1, h2, sumW_cons]
+    unfold wOf
+    cases getEntry s a with
+    | none => exact ⟨by rw [W.zero_add], rfl⟩
+    | some x => exact ⟨by simp only [addAnc]; rw [W.add_assoc], rfl⟩
+
+/-- what `check_and_record_ancestors` guarantees for the aggregates clause -/
+def AncGoodA (s : Pool) (e : Entry) : AncRes → Prop
+  | .ok s' e' _ => ∃ s1 P, AggInv s1 ∧ Shrinks s1 s ∧ s' = { s1 with links := addNodeLinks s1.links e.tx.id P } ∧
+      e'.tx = e.tx ∧ e'.desc = e.desc ∧
+      e'.anc = e.anc.add (sumW s1 (calcRelation (parentsOf s1.links) (keys s1.links) P)) ∧
+      P.Nodup ∧ ∀ p ∈ P, p ∈ keys s1.links
+  | .panic s' => AggInv s'
+  | .rejAfter s' => AggInv s'
+  | .rej => True
+
+theorem recordAncestors_goodA {s s0 : Pool} (h : AggInv s) (hs : Shrinks s s0) (e : Entry) (P ev : List Nat) (hn : P.Nodup) :
+    AncGoodA s0 e (match recordAncestors s e (calcRelation (parentsOf s.links) (keys s.links) P) P with
+      | some (s', e') => AncRes.ok s' e' ev
+      | none => AncRes.panic s) := by
+  have hk := recordAncestors_goodK h.1 hs e P ev hn
+  cases hr : recordAncestors s e (calcRelation (parentsOf s.links) (keys s.links) P) P with
+  | none => exact h
+  | some r =>
+    obtain ⟨s', e'⟩ := r
+    rw [hr] at hk
+    obtain ⟨s1, P1, _, _, _, hetx, _, _⟩ := hk
+    unfold recordAncestors at hr
+    split at hr
+    · rename_i hall
+      simp only [Option.some.injEq, Prod.mk.injEq] at hr
+      obtain ⟨hs', he'⟩ := hr
+      have hsum := foldAnc_sum s (calcRelation (parentsOf s.links) (keys s.links) P) e
+      refine ⟨s, P, h, hs, hs'.symm, hetx, ?_, ?_, hn, ?_⟩
+      · rw [← he']; exact hsum.2
+      · rw [← he']; exact hsum.1
+      · intro p hp
+        have hp' := stage_sub_calcRelation (parentsOf s.links) (keys s.links) P p hp
+        have := List.all_eq_true.mp hall p hp'
+        cases hg : getEntry s p with
+        | none => rw [hg] at this; simp at this
+        | some x =>
+          obtain ⟨hx, hid⟩ := getEntry_some hg
+          exact (h.1.keysEq p).mpr ⟨⟨x.tx, List.mem_map.mpr ⟨x, hx, rfl⟩, hid⟩, by simp⟩
+    · cases hr
+
+theorem checkAnc_agg {s : Pool} (h : AggInv s) (e : Entry) : AncGoodA s e (checkAndRecordAncestors s e) := by
+  unfold checkAndRecordAncestors
+  simp only
+  split
+  · exact recordAncestors_goodA h (Shrinks.refl s) e _ _ (nodup_dedup _)
+  · split
+    · have hl := evictLoop_of (P := AggInv) aggInv_rmd
+        (((byEvictKey s.entries).filter (·.tx.id ∈ (txAncestors s e.tx).2.2)).map (·.tx.id)) s
+        ((txAncestors s e.tx).1.length + 1) (txAncestors s e.tx).2.1 [] h
+      have hsh := evictLoop_shrinks
+        (((byEvictKey s.entries).filter (·.tx.id ∈ (txAncestors s e.tx).2.2)).map (·.tx.id)) s
+        ((txAncestors s e.tx).1.length + 1) (txAncestors s e.tx).2.1 []
+      have hpn := evictLoop_parents
+        (((byEvictKey s.entries).filter (·.tx.id ∈ (txAncestors s e.tx).2.2)).map (·.tx.id)) s
+        ((txAncestors s e.tx).1.length + 1) (txAncestors s e.tx).2.1 [] (nodup_dedup _)
+      split
+      · exact hl
+      · split
+        · exact recordAncestors_goodA hl hsh e _ _ hpn
+        · exact hl
+    · trivial
+
+theorem recordDescendants_clean (s : Pool) (e : Entry) (hgb : (recordDescendants s e).ghostBad = false) :
+    s.ghostBad = false ∧ (recordDescendants s e).links = s.links ∧
+    (recordDescendants s e).entries = modEntries (calcAnc s.links e.tx.id) (addDesc e.tx.w) s.entries := by
+  by_cases hc : (findChildren s e.tx).isEmpty = true
+  · have : recordDescendants s e =
+        { s with entries := modEntries (calcAnc s.links e.tx.id) (addDesc e.tx.w) s.entries } := by
+      unfold recordDescendants; simp only [hc, if_true]
+    rw [this] at hgb ⊢
+    exact ⟨hgb, rfl, rfl⟩
+  · have : (recordDescendants s e).ghostBad = true := by
+      unfold recordDescendants
+      simp only [hc]
+      split
+      · rename_i hf; cases hf
+      · split <;> rfl
+    rw [this] at hgb; cases hgb
+
+theorem recordDescendants_cfg (s : Pool) (e : Entry) : (recordDescendants s e).cfg = s.cfg := by
+  unfold recordDescendants
+  simp only
+  split
+  · rfl
+  · split <;> rfl
+
+theorem aggInv_add (s : Pool) (t : Tx) (st : Status) (ts : Nat) (h : AggInv s) : AggInv (addEntry s t st ts).1 := by
+  refine ⟨linksOK_add s t st ts h.1, ?_⟩
+  unfold addEntry
+  split
+  · exact h.2
+  · rename_i hdup
+    split
+    · exact h.2
+    · have hg := checkAnc_agg h (Entry.fresh t st ts)
+      split
+      · exact h.2
+      · rename_i s' heq; rw [heq] at hg; exact hg.2
+      · rename_i s' heq; rw [heq] at hg; exact hg.2
+      · rename_i s2 e ev heq
+        rw [heq] at hg
+        obtain ⟨s1, P, h1, hsh, hs2, hetx, hedesc, heanc, hPn, hPk⟩ := hg
+        have hetx : e.tx = t := hetx
+        have hid : (Entry.fresh t st ts).tx.id = t.id := rfl
+        rw [hid] at hs2
+        simp only [Bool.not_eq_true, Option.isSome_eq_false_iff, Option.isNone_iff_eq_none] at hdup
+        have hEk : t.id ∉ keys s1.links := by
+          intro hk
+          obtain ⟨⟨x, hx, hxid⟩, _⟩ := (h1.1.keysEq t.id).mp hk
+          exact getEntry_none hdup x (hsh.2 x hx) hxid
+        intro hfix hgb
+        simp only [track_ghostBad, track_cfg] at hfix hgb
+        rw [recordDescendants_cfg] at hfix
+        obtain ⟨hgb3, hl3, he3⟩ := recordDescendants_clean _ e hgb
+        subst hs2
+        have hA1 : AggOK s1 := h1.2 hfix hgb3
+        have hedesc' : e.desc = t.w := hedesc
+        have heanc' : e.anc = t.w.add (sumW s1 (calcRelation (parentsOf s1.links) (keys s1.links) P)) := heanc
+        refine aggOK_push h1.1 hA1 hEk hPk hPn hetx hedesc' heanc' ?_ ?_
+        · simp only [track_links]; rw [hl3]; rfl
+        · simp only [track_entries, track_links]
+          rw [he3, hl3, hetx]
+          rfl
+
+theorem aggOK_congr {s s' : Pool} (he : s'.entries = s.entries) (hl : s'.links = s.links) (h : AggOK s) : AggOK s' := by
+  intro e hm
+  rw [he] at hm
+  obtain ⟨a, b⟩ := h e hm
+  have hw : ∀ l, sumW s' l = sumW s l := fun l => sumW_congr l (fun y _ => wOf_congr y (by unfold getEntry; rw [he]))
+  rw [hl, hw, hw]; exact ⟨a, b⟩
+
+theorem aggOK_map {s s' : Pool} (f : Entry → Entry)
+    (hf : ∀ e, (f e).tx = e.tx ∧ (f e).anc = e.anc ∧ (f e).desc = e.desc)
+    (he : s'.entries = s.entries.map f) (hl : s'.links = s.links) (h : AggOK s) : AggOK s' := by
+  have htx : txs s' = txs s := by
+    simp only [txs, he, List.map_map]
+    apply List.map_congr_left; intro x _; exact (hf x).1
+  have hw : ∀ l, sumW s' l = sumW s l := fun l => sumW_congr l (fun y _ => wOf_of_txs y (by rw [htx]))
+  intro e' he'
+  rw [he] at he'
+  obtain ⟨e, hem, rfl⟩ := List.mem_map.mp he'
+  obtain ⟨a, b⟩ := h e hem
+  rw [hl, hw, hw, (hf e).1, (hf e).2.1, (hf e).2.2]
+  exact ⟨a, b⟩
+
+theorem aggInv_set (s : Pool) (id : Nat) (st : Status) (h : AggInv s) : AggInv (setEntry s id st) := by
+  refine ⟨linksOK_set s id st h.1, ?_⟩
+  unfold setEntry
+  split
+  · exact h.2
+  · intro hfix hgb
+    simp only [track_cfg, track_ghostBad] at hfix hgb
+    refine aggOK_map (fun x => if x.tx.id = id then { x with status := st } else x) ?_ (by simp) (by simp) (h.2 hfix hgb)
+    intro e; split <;> exact ⟨rfl, rfl, rfl⟩
+
+theorem aggInv_closed : CoreClosed AggInv where
+  rm := aggInv_rm
+  rmd := aggInv_rmd
+  add := aggInv_add
+  set := aggInv_set
+  stripIn := fun s i id h _ => aggInv_rmd _ id
+    ⟨linksOK_stripIn s i h.1, fun hf hg => aggOK_congr rfl rfl (h.2 hf hg)⟩
+  stripDep := fun s i acc h => foldRmd_of (P := AggInv) aggInv_rmd _ _ _
+    ⟨linksOK_stripDep s i h.1, fun hf hg => aggOK_congr rfl rfl (h.2 hf hg)⟩
+
+
+/-! ### the configuration never changes -/
+
+def AncGoodC (c : Cfg) : AncRes → Prop
+  | .ok s' _ _ => s'.cfg = c
+  | .panic s' => s'.cfg = c
+  | .rejAfter s' => s'.cfg = c
+  | .rej => True
+
+theorem recordAncestors_cfg {s : Pool} {c : Cfg} (h : s.cfg = c) (e : Entry) (a p ev : List Nat) :
+    AncGoodC c (match recordAncestors s e a p with
+      | some (s', e') => AncRes.ok s' e' ev
+      | none => AncRes.panic s) := by
+  cases hr : recordAncestors s e a p with
+  | none => exact h
+  | some r =>
+    obtain ⟨s', e'⟩ := r
+    unfold recordAncestors at hr
+    split at hr
+    · simp only [Option.some.injEq, Prod.mk.injEq] at hr
+      rw [← hr.1]; exact h
+    · cases hr
+
+theorem cfg_closed (c : Cfg) : CoreClosed (fun s => s.cfg = c) where
+  rm := fun s id h => (removeEntry_cfg s id).trans h
+  rmd := fun s id h => (removeWithDesc_cfg s id).trans h
+  add := by
+    intro s t st ts h
+    unfold addEntry
+    split
+    · exact h
+    · split
+      · exact h
+      · have hg : AncGoodC c (checkAndRecordAncestors s (Entry.fresh t st ts)) := by
+          unfold checkAndRecordAncestors
+          simp only
+          split
+          · exact recordAncestors_cfg h _ _ _ _
+          · split
+            · have hl := evictLoop_of (P := fun x => x.cfg = c) (fun x id hx => (removeWithDesc_cfg x id).trans hx)
+                (((byEvictKey s.entries).filter (·.tx.id ∈ (txAncestors s (Entry.fresh t st ts).tx).2.2)).map (·.tx.id)) s
+                ((txAncestors s (Entry.fresh t st ts).tx).1.length + 1) (txAncestors s (Entry.fresh t st ts).tx).2.1 [] h
+              split
+              · exact hl
+              · split
+                · exact recordAncestors_cfg hl _ _ _ _
+                · exact hl
+            · trivial
+        split
+        · exact h
+        · rename_i s' heq; rw [heq] at hg; exact hg
+        · rename_i s' heq; rw [heq] at hg; exact hg
+        · rename_i s2 e ev heq
+          rw [heq] at hg
+          simp only [track_cfg]
+          rw [recordDescendants_cfg]
+          exact hg
+  set := by
+    intro s id st h
+    unfold setEntry
+    split
+    · exact h
+    · simp only [track_cfg]; exact h
+  stripIn := fun s i id h _ => (removeWithDesc_cfg _ id).trans h
+  stripDep := fun s i acc h => foldRmd_of (P := fun x => x.cfg = c) (fun x id hx => (removeWithDesc_cfg x id).trans hx) _ _ _ h
 
 end CkbVerif.Pool
